@@ -61,6 +61,7 @@ type cmafIngester struct {
 	asset          *asset
 	repsData       []cmafRepData
 	nextSegTrigger chan struct{}
+	done           chan struct{} // closed when the session has ended
 	state          ingesterState
 	report         []string
 }
@@ -189,6 +190,7 @@ func (cm *cmafIngesterMgr) NewCmafIngester(req CmafIngesterSetup) (nr uint64, er
 		repsData:       repsData,
 		state:          ingesterStateNotStarted,
 		nextSegTrigger: make(chan struct{}),
+		done:           make(chan struct{}),
 	}
 	if c.dur != nil {
 		c.nrSegsToSend = m.Ptr(*c.dur * 1000 / asset.SegmentDurMS)
@@ -240,6 +242,7 @@ func (c *cmafIngester) start(ctx context.Context) {
 		c.mgr.mu.Lock()
 		c.state = ingesterStateStopped
 		c.mgr.mu.Unlock()
+		close(c.done)
 	}()
 
 	// Finally we should send off the init segments
@@ -463,7 +466,10 @@ func (c *cmafIngester) start(ctx context.Context) {
 }
 
 func (c *cmafIngester) triggerNextSegment() {
-	c.nextSegTrigger <- struct{}{}
+	select {
+	case c.nextSegTrigger <- struct{}{}:
+	case <-c.done: // Nobody will ever receive the trigger of an ended session
+	}
 }
 
 func (c *cmafIngester) dest() string {
